@@ -135,6 +135,12 @@ Proof.
   rewrite Z.eqb_refl in H. discriminate.
 Qed.
 
+Lemma firstn_In : forall (A : Type) n (l : list A) x, In x (firstn n l) -> In x l.
+Proof. induction n; destruct l; simpl; intros; try tauto. destruct H; auto. Qed.
+
+Lemma skipn_In : forall (A : Type) n (l : list A) x, In x (skipn n l) -> In x l.
+Proof. induction n; destruct l; simpl; intros; auto. Qed.
+
 (* ------------------------------------------------------------------ lookup *)
 
 Lemma find_obj_some : forall u st o, find_obj u st = Some o -> In o (objs st) /\ uid o = u.
@@ -193,7 +199,7 @@ Proof.
           (forall x, In x (uids st') -> In x (uids st) \/ In x (issued_of r))).
   { intros ts Hc. apply create_spec in Hc. destruct Hc as (C & U & I). split; [|split]; auto.
     intros x Hx. rewrite U in Hx. apply in_app_or in Hx. auto. }
-  destruct (i_op it) as [pol|pol|t pol|bases t pol|tgt|k tgt|tgt w| |vs|].
+  destruct (i_op it) as [pol|pol|t pol|bases t pol|tgt|k tgt|tgt w| |vs| |ft off mx].
   - eapply Cr; eauto.
   - eapply Cr; eauto.
   - eapply Cr; eauto.
@@ -208,6 +214,7 @@ Proof.
     destruct (access who PGet (Some w) st); eapply Same; eauto; reflexivity.
   - eapply Same; eauto; reflexivity.
   - destruct (ver <? 11); eapply Same; eauto; reflexivity.
+  - eapply Same; eauto; reflexivity.
   - eapply Same; eauto; reflexivity.
 Qed.
 
@@ -441,7 +448,7 @@ Proof.
   destruct D as [D1 D2].
   unfold respects_dead, direct_target, indirect_refs; simpl.
   unfold step_item in H.
-  destruct (i_op it) as [pol|pol|t pol|bases t pol|tgt|k tgt|tgt w| |vs|]; simpl.
+  destruct (i_op it) as [pol|pol|t pol|bases t pol|tgt|k tgt|tgt w| |vs| |ft off mx]; simpl.
   - split; [|intros [?|?]; [discriminate|tauto]].
     split; [discriminate|]. split; [tauto|]. split; intros ids Hr; subst r; auto. unfold create in H.
     destruct (i_gate it); [destruct (add_objs _ _ _)|]; inversion H.
@@ -495,6 +502,12 @@ Proof.
     + intros; discriminate.
   - destruct (ver <? 11); inversion H; subst; (split; [|auto]); (split; [discriminate|]); (split; [tauto|]); split; intros; discriminate.
   - inversion H; subst. split; [|auto]. split; [discriminate|]. split; [tauto|]. split; intros; discriminate.
+  - inversion H; subst. split; [|auto]. split; [discriminate|]. split; [tauto|]. split.
+    + intros ids Hr. inversion Hr; subst. intro Hin. apply D1. unfold uids.
+      assert (Hall := Hin). destruct mx as [m|]; [apply firstn_In in Hall|]; apply skipn_In in Hall;
+        apply in_map_iff in Hall; destruct Hall as (o & Ho & Hf); apply filter_In in Hf; destruct Hf as [Hf _];
+        apply in_map_iff; exists o; auto.
+    + intros; discriminate.
 Qed.
 
 Lemma dead_run_items : forall u ver who cont its st ph es st' ph',
@@ -627,13 +640,14 @@ Proof.
           unfold last_id. destruct (rev ids) as [|x l] eqn:ER; auto. right. exists x. split; auto.
           rewrite Forall_forall in C. assert (Hx : In x ids). { apply in_rev. rewrite ER. left; auto. } apply C in Hx. lia.
         - inversion Hc; auto. }
-      destruct (i_op it) as [pol|pol|t pol|bases t pol|tgt|k tgt|tgt w| |vs|]; eauto.
+      destruct (i_op it) as [pol|pol|t pol|bases t pol|tgt|k tgt|tgt w| |vs| |ft off mx]; eauto.
       - destruct (check_bases who st bases); eauto; inversion E1; auto.
       - destruct (access who PDestroy (resolve tgt ph) st); [| |destruct (i_gate it)]; inversion E1; auto.
       - destruct (ver <? min_version k); [|destruct (access who (pop_of k) (resolve tgt ph) st)]; inversion E1; auto.
       - destruct (access who PGet (resolve tgt ph) st); [| |destruct (access who PGet (Some w) st)]; inversion E1; auto.
       - inversion E1; auto.
       - destruct (ver <? 11); inversion E1; auto.
+      - inversion E1; auto.
       - inversion E1; auto. }
     pose proof (step_item_spec _ _ _ _ _ _ _ _ E1) as (C1 & _ & _). apply consec_le in C1.
     destruct (failed it r && negb cont).
